@@ -2,7 +2,7 @@
 from scen import Stmt, Variant, scenario, standard_ops, ninja_op, sources_of
 
 
-def _mk(name, variants, tags=(), files=None, depth=2, js=(1, 3), fresh_depth=1, **kw):
+def _mk(name, variants, tags=(), files=None, depth=2, js=(1, 3), fresh_depth=1, builddir="", **kw):
     """Two scenarios per template: exploration from the fresh tree and from a fully built tree."""
     files = dict(files or {})
     out = []
@@ -10,9 +10,9 @@ def _mk(name, variants, tags=(), files=None, depth=2, js=(1, 3), fresh_depth=1, 
     ops = standard_ops(variants, files, js=js, **kw)
     build_idx = next(i for i, o in enumerate(ops) if o["op"] == "ninja")
     out.append(scenario(name + "/fresh", "template", variants, files=files, ops=ops, init=[], depth=fresh_depth,
-                        tags=list(tags) + ["fresh"]))
+                        tags=list(tags) + ["fresh"], builddir=builddir))
     out.append(scenario(name + "/built", "template", variants, files=files, ops=ops, init=[build_idx], depth=depth,
-                        tags=list(tags) + ["built"]))
+                        tags=list(tags) + ["built"], builddir=builddir))
     return out
 
 
@@ -255,5 +255,24 @@ def templates(tier="quick"):
         v = Variant("v0", [g, Stmt("xa", ex=["a"]), Stmt("xb", ex=["b"]), Stmt("top", ex=["xa", "xb"])])
         T += _mk("restat_two_outputs_%s%s" % order, [v], tags=["restat", "multi-output"], depth=d, touch=True, js=(1, 2),
                  max_fault_stmts=1)
+
+    # T28 a project that binds `builddir`: logs and lock file live there, an output too; restat + recorded deps + rspfile
+    v = Variant("v0", [Stmt("gen", ex=["tmpl"], restat=True), Stmt("bd/obj", ex=["src"], im=["gen"], hidden=["hdr"], deps="gcc"),
+                       Stmt("lib", ex=["bd/obj"], rsp=("bd/lib.rsp", "bd/obj")), Stmt("exe", ex=["lib"])], header="builddir = bd")
+    v1 = Variant("v1", [Stmt("gen", ex=["tmpl"], restat=True), Stmt("bd/obj", ex=["src"], im=["gen"], hidden=["hdr"], deps="gcc"),
+                        Stmt("lib", ex=["bd/obj"], rsp=("bd/lib.rsp", "bd/obj"), ver=1), Stmt("exe", ex=["lib"])], header="builddir = bd")
+    T += _mk("builddir_project", [v, v1], tags=["builddir", "restat", "deps-gcc", "rspfile"], depth=d, touch=True, js=(1, 2), builddir="bd",
+             max_fault_stmts=2)
+
+    # T29 statements and their rules in subninja files (scopes of their own; the second shadows a rule name of the first
+    # and of the top level), linked across the files
+    def scoped(st, f, rule=None):
+        st.scope = f
+        if rule:
+            st.rule_name = rule
+        return st
+    v = Variant("v0", [Stmt("a", ex=["s"]), scoped(Stmt("b", ex=["a"], hidden=["h"], depfile=True), "sub1.ninja", "r0"),
+                       scoped(Stmt("c", ex=["b"], restat=True), "sub2.ninja", "r0"), Stmt("top", ex=["c", "a"])])
+    T += _mk("subninja_scopes", [v], tags=["subninja", "depfile", "restat"], depth=d, touch=True, js=(1, 2), max_fault_stmts=2)
 
     return T
